@@ -168,60 +168,160 @@ def wipeOps (cfg : Cfg) (fs : FS) (p : Name) : List FsOp :=
   | none => []
   | some bs => overwriteOps p bs.length cfg.passes ++ [.remove p]
 
-/-- `persist_chunk_to_disk`: wipe a file already at the path, open-truncate, write -/
-def persistOps (cfg : Cfg) (fs : FS) (p : Name) (data : Bytes) : List FsOp :=
-  wipeOps cfg fs p ++ [.create p, .append p data]
+/-! ### I/O errors
 
-/-- file-system operations of `ChunkStore::put`, in program order -/
-def putOps (cfg : Cfg) (s : Recs) (fs : FS) (id : String) (data : Bytes) : List FsOp :=
+Every file-system *call* the code makes on a chunk file (open for wiping, one buffer write, open
+with truncation, the payload write, unlink) has an index within its operation, in program order.
+`Faults` says which calls fail and, for a failing write, how many bytes still get through (a short
+write followed by ENOSPC).  A failed call has no effect on the directory beyond those bytes.
+The routines below mirror the C++ control flow *including its error handling* (after the repair
+C04-retry-failed-wipes) and return the file-system operations that took effect. -/
+
+abbrev Faults := List (Nat × Nat)
+
+def faultAt (φ : Faults) (i : Nat) : Option Nat := aget φ i
+
+/-- what a failing write still does: a strict prefix of the intended bytes -/
+def truncOp : FsOp → Nat → List FsOp
+  | .zero p off len, s => if min s (len - 1) = 0 then [] else [.zero p off (min s (len - 1))]
+  | .append p bs, s => if min s (bs.length - 1) = 0 then [] else [.append p (bs.take (min s (bs.length - 1)))]
+  | _, _ => []
+
+/-- a run of write calls on an open stream: after the first failure the stream is in the failed
+    state and nothing more is written.  Returns (effective ops, next call index, all succeeded) -/
+def writesF (φ : Faults) : List FsOp → Nat → List FsOp × Nat × Bool
+  | [], n => ([], n, true)
+  | o :: r, n =>
+    match faultAt φ n with
+    | some s => (truncOp o s, n + 1, false)
+    | none => ((o :: (writesF φ r (n + 1)).1), (writesF φ r (n + 1)).2.1, (writesF φ r (n + 1)).2.2)
+
+/-- `secure_wipe_file(path)` with I/O errors: `true` iff the file does not exist afterwards.
+    Open failure: nothing happens.  Write failure: the remaining passes are skipped, the unlink is
+    still attempted.  Unlink failure: the (overwritten) file stays. -/
+def wipeF (cfg : Cfg) (φ : Faults) (fs : FS) (p : Name) (n : Nat) : List FsOp × Nat × Bool :=
+  match aget fs p with
+  | none => ([], n, true)
+  | some bs =>
+    match faultAt φ n with
+    | some _ => ([], n + 1, false)
+    | none =>
+      let w := writesF φ (overwriteOps p bs.length cfg.passes) (n + 1)
+      match faultAt φ w.2.1 with
+      | some _ => (w.1, w.2.1 + 1, false)
+      | none => (w.1 ++ [.remove p], w.2.1 + 1, true)
+
+/-- `secure_wipe_file` for each path in turn (`wipe_or_retry_later`): the paths whose wipe failed
+    are returned; they go to `pending_wipes_`. -/
+def wipeAllF (cfg : Cfg) (φ : Faults) : List Name → FS → Nat → List FsOp × Nat × List Name
+  | [], _, n => ([], n, [])
+  | p :: rest, fs, n =>
+    let w := wipeF cfg φ fs p n
+    let r := wipeAllF cfg φ rest (applyOps fs w.1) w.2.1
+    (w.1 ++ r.1, r.2.1, if w.2.2 then r.2.2 else p :: r.2.2)
+
+structure PersistRes where
+  ops : List FsOp
+  n : Nat
+  /-- return value of `persist_chunk_to_disk` -/
+  ok : Bool
+  /-- the clean-up wipe after a failure failed too: the path goes to `pending_wipes_` -/
+  defer : Bool
+deriving Repr, Inhabited
+
+/-- `persist_chunk_to_disk` with I/O errors: wipe a file already at the path (result ignored, the
+    open-truncate below replaces whatever is left), open-truncate, write+flush; on a failed open or
+    write, `wipe_or_retry_later(path)` and report failure. -/
+def persistF (cfg : Cfg) (φ : Faults) (fs : FS) (p : Name) (data : Bytes) (n : Nat) : PersistRes :=
+  let o1 := wipeF cfg φ fs p n
+  let fs1 := applyOps fs o1.1
+  match faultAt φ o1.2.1 with
+  | some _ =>
+    let c := wipeF cfg φ fs1 p (o1.2.1 + 1)
+    { ops := o1.1 ++ c.1, n := c.2.1, ok := false, defer := !c.2.2 }
+  | none =>
+    let n2 := o1.2.1 + 1
+    if data.isEmpty then { ops := o1.1 ++ [.create p], n := n2, ok := true, defer := false }
+    else
+      match faultAt φ n2 with
+      | some s =>
+        let part := truncOp (.append p data) s
+        let c := wipeF cfg φ (applyOps fs1 (.create p :: part)) p (n2 + 1)
+        { ops := o1.1 ++ (.create p :: part) ++ c.1, n := c.2.1, ok := false, defer := !c.2.2 }
+      | none => { ops := o1.1 ++ [.create p, .append p data], n := n2 + 1, ok := true, defer := false }
+
+structure PutRes where
+  ops : List FsOp
+  n : Nat
+  persisted : Bool
+  pending : List Name
+deriving Repr, Inhabited
+
+/-- file-system side of `ChunkStore::put`: wipe the file of the record being replaced
+    (`wipe_or_retry_later`), then persist; `pending` is `pending_wipes_` afterwards -/
+def oldWipeF (cfg : Cfg) (φ : Faults) (s : Recs) (fs : FS) (id : String) : List FsOp × Nat × Bool :=
+  match aget s id with
+  | some r => if r.persisted then wipeF cfg φ fs (.chunk id) 0 else ([], 0, true)
+  | none => ([], 0, true)
+
+def putF (cfg : Cfg) (φ : Faults) (s : Recs) (fs : FS) (pending : List Name) (id : String) (data : Bytes) : PutRes :=
   let p := Name.chunk id
-  let o1 := match aget s id with
-    | some r => if r.persisted then wipeOps cfg fs p else []
-    | none => []
-  let o2 := if cfg.persistent then persistOps cfg (applyOps fs o1) p data else []
-  o1 ++ o2
+  let o1 := oldWipeF cfg φ s fs id
+  let pend1 := if o1.2.2 then pending else p :: pending
+  if cfg.persistent then
+    let pr := persistF cfg φ (applyOps fs o1.1) p data o1.2.1
+    let pend2 := pend1.filter (fun q => !decide (q = p))
+    { ops := o1.1 ++ pr.ops, n := pr.n, persisted := pr.ok, pending := if pr.defer then p :: pend2 else pend2 }
+  else { ops := o1.1, n := o1.2.1, persisted := false, pending := pend1 }
 
-/-- file-system operations of `sweep_expired`, records visited in table order -/
-def sweepOps (cfg : Cfg) (now : Int) : Recs → FS → List FsOp
-  | [], _ => []
-  | (id, r) :: rest, fs =>
-    if expiredSweep now r.expires && r.persisted && cfg.wipeOnExpiry then
-      let o := wipeOps cfg fs (.chunk id)
-      o ++ sweepOps cfg now rest (applyOps fs o)
-    else sweepOps cfg now rest fs
+/-- does the sweep at `now` wipe the file of this record? -/
+def wiped (cfg : Cfg) (now : Int) (r : Rec) : Bool := expiredSweep now r.expires && r.persisted && cfg.wipeOnExpiry
 
-/-- `purge_orphaned_chunk_files` (repair): wipe every regular `*.chunk` file of the directory,
-    in directory order (`names` is the list collected by the directory scan) -/
-def purgeOps (cfg : Cfg) : List Name → FS → List FsOp
-  | [], _ => []
-  | p :: rest, fs =>
-    if p.isChunk then
-      let o := wipeOps cfg fs p
-      o ++ purgeOps cfg rest (applyOps fs o)
-    else purgeOps cfg rest fs
+/-- the paths `sweep_expired` wipes, in order: first the wipes still owed (`retry_pending_wipes`),
+    then the files of the expired persisted records in table order -/
+def sweepNames (cfg : Cfg) (now : Int) (s : Recs) (pending : List Name) : List Name :=
+  pending ++ (s.filter (fun e => wiped cfg now e.2)).map (fun e => Name.chunk e.1)
 
-/-- file-system operations of the constructor -/
-def ctorOps (cfg : Cfg) (fs : FS) : List FsOp :=
-  if cfg.persistent && cfg.wipeOnExpiry then purgeOps cfg (fs.map (·.1)) fs else []
+/-- the paths the constructor purges: every `*.chunk` entry of the directory, in directory order -/
+def purgeNames (cfg : Cfg) (fs : FS) : List Name :=
+  if cfg.persistent && cfg.wipeOnExpiry then (fs.map (·.1)).filter (·.isChunk) else []
 
 /-! ### the store as a whole: memory + directory -/
 
 structure Sys where
   recs : Recs
   fs : FS
+  /-- `pending_wipes_`: files whose wipe failed; every sweep tries again -/
+  pending : List Name := []
 deriving Repr, Inhabited
 
 /-- a fresh instance on an existing directory -/
-def boot (cfg : Cfg) (fs : FS) : Sys := { recs := [], fs := applyOps fs (ctorOps cfg fs) }
+def bootF (cfg : Cfg) (φ : Faults) (fs : FS) : Sys :=
+  let w := wipeAllF cfg φ (purgeNames cfg fs) fs 0
+  { recs := [], fs := applyOps fs w.1, pending := w.2.2 }
+
+def boot (cfg : Cfg) (fs : FS) : Sys := bootF cfg [] fs
+
+/-- file-system operations of the constructor (no I/O errors) -/
+def ctorOps (cfg : Cfg) (fs : FS) : List FsOp := (wipeAllF cfg [] (purgeNames cfg fs) fs 0).1
+
+def mkRecP (cfg : Cfg) (now : Int) (data plain : Bytes) (ttl : Int) (nonce : Bytes) (enc : Bool) (persisted : Bool) : Rec :=
+  { mkRec cfg now data plain ttl nonce enc with persisted := persisted }
+
+def sysPutF (cfg : Cfg) (φ : Faults) (y : Sys) (now : Int) (id : String) (data plain : Bytes) (ttl : Int)
+    (nonce : Bytes) (enc : Bool) : Sys :=
+  let r := putF cfg φ y.recs y.fs y.pending id data
+  { recs := aset y.recs id (mkRecP cfg now data plain ttl nonce enc r.persisted),
+    fs := applyOps y.fs r.ops, pending := r.pending }
 
 def sysPut (cfg : Cfg) (y : Sys) (now : Int) (id : String) (data plain : Bytes) (ttl : Int)
-    (nonce : Bytes) (enc : Bool) : Sys :=
-  { recs := put cfg y.recs now id data plain ttl nonce enc,
-    fs := applyOps y.fs (putOps cfg y.recs y.fs id data) }
+    (nonce : Bytes) (enc : Bool) : Sys := sysPutF cfg [] y now id data plain ttl nonce enc
 
-def sysSweep (cfg : Cfg) (y : Sys) (now : Int) : Sys × List String :=
-  ({ recs := (sweep y.recs now).1, fs := applyOps y.fs (sweepOps cfg now y.recs y.fs) },
-   (sweep y.recs now).2)
+def sysSweepF (cfg : Cfg) (φ : Faults) (y : Sys) (now : Int) : Sys × List String :=
+  let w := wipeAllF cfg φ (sweepNames cfg now y.recs y.pending) y.fs 0
+  ({ recs := (sweep y.recs now).1, fs := applyOps y.fs w.1, pending := w.2.2 }, (sweep y.recs now).2)
+
+def sysSweep (cfg : Cfg) (y : Sys) (now : Int) : Sys × List String := sysSweepF cfg [] y now
 
 /-! ### `Node` wrappers -/
 
@@ -244,8 +344,11 @@ def nodeTtl (nc : NodeCfg) (ttl : Int) : Int :=
   clampChunkTtl (if ttl > 0 then ttl else nc.store.defaultTtl) nc.minTtl nc.maxTtl
 
 /-- `Node::store_chunk` (chunk-store effect): `cipher` is what `encrypt_with_key` produced -/
+def nodeStoreF (nc : NodeCfg) (φ : Faults) (y : Sys) (now : Int) (id : String) (plain cipher nonce : Bytes) (ttl : Int) : Sys :=
+  sysPutF nc.store φ y now id cipher plain (nodeTtl nc ttl) nonce true
+
 def nodeStore (nc : NodeCfg) (y : Sys) (now : Int) (id : String) (plain cipher nonce : Bytes) (ttl : Int) : Sys :=
-  sysPut nc.store y now id cipher plain (nodeTtl nc ttl) nonce true
+  nodeStoreF nc [] y now id plain cipher nonce ttl
 
 /-- `Node::fetch_chunk` for a locally stored chunk -/
 def nodeFetch (s : Recs) (now : Int) (id : String) : Option Bytes :=
@@ -272,11 +375,14 @@ def nodeList (s : Recs) (now : Int) : List (String × Int × Bool × Nat) :=
   (snapshot s).filter fun e => !expiredList now e.2.1
 
 /-- the chunk-store part of `Node::tick`: sweep when the cleanup interval has elapsed -/
-def nodeTick (nc : NodeCfg) (y : Sys) (lastCleanup now : Int) : Sys × Int × Option (List String) :=
+def nodeTickF (nc : NodeCfg) (φ : Faults) (y : Sys) (lastCleanup now : Int) : Sys × Int × Option (List String) :=
   if now - lastCleanup ≥ nc.cleanupInterval * nsPerSec then
-    let r := sysSweep nc.store y now
+    let r := sysSweepF nc.store φ y now
     (r.1, now, some r.2)
   else (y, lastCleanup, none)
+
+def nodeTick (nc : NodeCfg) (y : Sys) (lastCleanup now : Int) : Sys × Int × Option (List String) :=
+  nodeTickF nc [] y lastCleanup now
 
 /-! ### histories: the operations of `StoreSpec.Op` executed by the model -/
 
@@ -291,23 +397,27 @@ deriving Repr, Inhabited
 
 def recObs (o : Option Rec) : Obs := .record (o.map fun r => (r.data, r.expires))
 
-def step (nc : NodeCfg) (w : World) : Op → World × Obs
+/-- one operation under the I/O errors `φ` (indices count the file-system calls of this operation) -/
+def stepF (nc : NodeCfg) (φ : Faults) (w : World) : Op → World × Obs
   | .store id data ttl nonce enc =>
-    ({ w with sys := sysPut nc.store w.sys w.now id data data ttl nonce enc }, .unit)
+    ({ w with sys := sysPutF nc.store φ w.sys w.now id data data ttl nonce enc }, .unit)
   | .nstore id plain cipher nonce ttl =>
-    ({ w with sys := nodeStore nc w.sys w.now id plain cipher nonce ttl }, .unit)
+    ({ w with sys := nodeStoreF nc φ w.sys w.now id plain cipher nonce ttl }, .unit)
   | .lookup id => (w, .bytes (get w.sys.recs w.now id))
   | .record id => (w, recObs (getRecord w.sys.recs w.now id))
   | .fetch id => (w, .bytes (nodeFetch w.sys.recs w.now id))
   | .request id => (w, .bytes (nodeRequest nc w.sys.recs w.now id))
   | .list => (w, .listing ((nodeList w.sys.recs w.now).map fun e => (e.1, e.2.1)))
   | .sweep =>
-    let r := sysSweep nc.store w.sys w.now
+    let r := sysSweepF nc.store φ w.sys w.now
     ({ w with sys := r.1 }, .removed r.2)
   | .tick =>
-    let r := nodeTick nc w.sys w.lastCleanup w.now
+    let r := nodeTickF nc φ w.sys w.lastCleanup w.now
     ({ w with sys := r.1, lastCleanup := r.2.1 }, match r.2.2 with | some l => .removed l | none => .unit)
   | .advance d => ({ w with now := w.now + d }, .unit)
+
+/-- one operation without I/O errors -/
+def step (nc : NodeCfg) (w : World) (o : Op) : World × Obs := stepF nc [] w o
 
 /-- every observation of the model along a history is accepted by the specification -/
 def accepted (nc : NodeCfg) (p : EphVerif.StoreSpec.Params) :
@@ -321,47 +431,72 @@ def accepted (nc : NodeCfg) (p : EphVerif.StoreSpec.Params) :
 
 inductive HOp where
   | op (o : Op)
+  /-- the operation runs with the I/O errors `φ` -/
+  | fail (o : Op) (φ : Faults)
   /-- the instance goes away (no file-system effect) and a new one is constructed on the directory -/
   | restart
+  /-- a start-up whose purge hits the I/O errors `φ` -/
+  | restartF (φ : Faults)
   /-- the process dies after the first `k` file-system operations of `o` -/
   | crash (o : Op) (k : Nat)
   /-- a start-up attempt that dies after the first `k` file-system operations of the constructor -/
   | crashBoot (k : Nat)
 deriving Repr, Inhabited
 
-/-- file-system operations an operation performs, in program order -/
-def fsOpsOf (nc : NodeCfg) (w : World) : Op → List FsOp
-  | .store id data _ _ _ => putOps nc.store w.sys.recs w.sys.fs id data
-  | .nstore id _ cipher _ _ => putOps nc.store w.sys.recs w.sys.fs id cipher
-  | .sweep => sweepOps nc.store w.now w.sys.recs w.sys.fs
-  | .tick =>
-    if w.now - w.lastCleanup ≥ nc.cleanupInterval * nsPerSec then sweepOps nc.store w.now w.sys.recs w.sys.fs else []
-  | _ => []
-
-structure HWorld where
-  w : World
-  /-- is there a running instance? -/
-  up : Bool
-  /-- time of the most recent completed cleanup (sweep or constructor) of the running instance -/
-  cleaned : Int
-deriving Repr, Inhabited
-
+/-- does this operation run the sweep? -/
 def sweeps (nc : NodeCfg) (w : World) : Op → Bool
   | .sweep => true
   | .tick => decide (w.now - w.lastCleanup ≥ nc.cleanupInterval * nsPerSec)
   | _ => false
 
+/-- file-system operations an operation performs, in program order, under the I/O errors `φ` -/
+def fsOpsOfF (nc : NodeCfg) (φ : Faults) (w : World) : Op → List FsOp
+  | .store id data _ _ _ => (putF nc.store φ w.sys.recs w.sys.fs w.sys.pending id data).ops
+  | .nstore id _ cipher _ _ => (putF nc.store φ w.sys.recs w.sys.fs w.sys.pending id cipher).ops
+  | .sweep => (wipeAllF nc.store φ (sweepNames nc.store w.now w.sys.recs w.sys.pending) w.sys.fs 0).1
+  | .tick =>
+    if w.now - w.lastCleanup ≥ nc.cleanupInterval * nsPerSec then
+      (wipeAllF nc.store φ (sweepNames nc.store w.now w.sys.recs w.sys.pending) w.sys.fs 0).1
+    else []
+  | _ => []
+
+def fsOpsOf (nc : NodeCfg) (w : World) (o : Op) : List FsOp := fsOpsOfF nc [] w o
+
+/-- number of file-system calls (fault indices) the operation makes when none fails -/
+def callsOf (nc : NodeCfg) (w : World) : Op → Nat
+  | .store id data _ _ _ => (putF nc.store [] w.sys.recs w.sys.fs w.sys.pending id data).n
+  | .nstore id _ cipher _ _ => (putF nc.store [] w.sys.recs w.sys.fs w.sys.pending id cipher).n
+  | .sweep => (wipeAllF nc.store [] (sweepNames nc.store w.now w.sys.recs w.sys.pending) w.sys.fs 0).2.1
+  | .tick =>
+    if w.now - w.lastCleanup ≥ nc.cleanupInterval * nsPerSec then
+      (wipeAllF nc.store [] (sweepNames nc.store w.now w.sys.recs w.sys.pending) w.sys.fs 0).2.1
+    else 0
+  | _ => 0
+
+structure HWorld where
+  w : World
+  /-- is there a running instance? -/
+  up : Bool
+  /-- time of the most recent sweep or start-up of the running instance -/
+  cleaned : Int
+deriving Repr, Inhabited
+
+def hstepOp (nc : NodeCfg) (φ : Faults) (h : HWorld) (o : Op) : HWorld :=
+  if h.up then
+    { h with w := (stepF nc φ h.w o).1, cleaned := if sweeps nc h.w o then h.w.now else h.cleaned }
+  else
+    -- nobody is running: only the clock can move
+    match o with
+    | .advance d => { h with w := { h.w with now := h.w.now + d } }
+    | _ => h
+
 def hstep (nc : NodeCfg) (h : HWorld) : HOp → HWorld
-  | .op o =>
-    if h.up then
-      { h with w := (step nc h.w o).1, cleaned := if sweeps nc h.w o then h.w.now else h.cleaned }
-    else
-      -- nobody is running: only the clock can move
-      match o with
-      | .advance d => { h with w := { h.w with now := h.w.now + d } }
-      | _ => h
+  | .op o => hstepOp nc [] h o
+  | .fail o φ => hstepOp nc φ h o
   | .restart =>
     { w := { h.w with sys := boot nc.store h.w.sys.fs, lastCleanup := h.w.now }, up := true, cleaned := h.w.now }
+  | .restartF φ =>
+    { w := { h.w with sys := bootF nc.store φ h.w.sys.fs, lastCleanup := h.w.now }, up := true, cleaned := h.w.now }
   | .crash o k =>
     if h.up then
       { h with w := { h.w with sys := { recs := [], fs := applyOps h.w.sys.fs ((fsOpsOf nc h.w o).take k) } }, up := false }
